@@ -567,11 +567,11 @@ static void execute_run(int out_fd)
     }
     catch (const dzn::binding_error& e)
     {
-      rec("fc result=throw kind=binding_error what=" + sanitize(e.what()));
+      rec("fc result=throw exc=binding_error what=" + sanitize(e.what()));
     }
     catch (const std::exception& e)
     {
-      rec("fc result=throw kind=other what=" + sanitize(e.what()));
+      rec("fc result=throw exc=other what=" + sanitize(e.what()));
     }
 
     if (fc_ok && g_model.mc_port >= 0 && (R.probes & 1))
